@@ -559,8 +559,10 @@ def run_history_delegated(names, policy, defer_stop=False):
             try:
                 do(w)
             except Exception as e:      # noqa
-                fails.append(("raised", type(e).__name__, str(e)[:600], "".join(traceback.format_tb(e.__traceback__)[-3:]),
-                              [c.__name__ for c in type(e).__mro__]))
+                allowed = [al for pre, al in API_ERRORS.items() if n.startswith(pre)]
+                if not (allowed and type(e).__name__ in allowed[0]):      # a documented usage error of this very call
+                    fails.append(("raised", type(e).__name__, str(e)[:600], "".join(traceback.format_tb(e.__traceback__)[-3:]),
+                                  [c.__name__ for c in type(e).__mro__]))
             w.clock.advance(0)
             w.absorb()
         return w, fails, True
@@ -568,7 +570,8 @@ def run_history_delegated(names, policy, defer_stop=False):
         txlog.removeObserver(observer)
 
 
-def search_delegated(policy, maxdepth=9, budget_s=120, defer_stops=(False, True), skip=HOSTILE):
+def search_delegated(policy, maxdepth=9, budget_s=120, defer_stops=(False, True), skip=HOSTILE, prefix=(), clauses=(),
+                     stats=None):
     """breadth-first over legal histories with the given re-entry policy; returns {signature: (history, defer_stop, detail)}
     with the shortest history found for every distinct failure (the search does not continue beyond a failure)"""
     global EVENTS
@@ -578,10 +581,10 @@ def search_delegated(policy, maxdepth=9, budget_s=120, defer_stops=(False, True)
     t0 = time.time()
     for defer_stop in defer_stops:
         seen = set()
-        q = deque([[]])
+        q = deque([list(prefix)])
         while q and time.time() - t0 < budget_s * (1 + defer_stops.index(defer_stop)) / len(defer_stops):
             h = q.popleft()
-            if len(h) >= maxdepth:
+            if len(h) >= maxdepth + len(prefix):
                 continue
             for n in names:
                 h2 = h + [n]
@@ -594,6 +597,16 @@ def search_delegated(policy, maxdepth=9, budget_s=120, defer_stops=(False, True)
                         if sig not in found or len(found[sig][0]) > len(h2):
                             found[sig] = (h2, defer_stop, detail, list(w.W.reentered))
                     continue
+                if clauses:
+                    # clauses [[literal, value], [literal, value]] (= not both) tested on this natively reached state
+                    val = native_valuation(w)
+                    if stats is not None:
+                        stats["states"] = stats.get("states", 0) + 1
+                    for c in clauses:
+                        if all(l in val and val[l] == x for l, x in c):
+                            sig = "clause-violated:" + " & ".join(f"{l}=={x}" for l, x in c)
+                            if sig not in found or len(found[sig][0]) > len(h2):
+                                found[sig] = (h2, defer_stop, "reached natively", list(w.W.reentered))
                 fp = w.fingerprint() + (getattr(w, "peer_pake_sent", False), getattr(w, "peer_key", None) is not None,
                                         tuple(sorted({c for c, _ in w.W.calls})), w.claimed_maybe, w.opened_maybe,
                                         len(w.W.reentered))
@@ -602,3 +615,46 @@ def search_delegated(policy, maxdepth=9, budget_s=120, defer_stops=(False, True)
                 seen.add(fp)
                 q.append(h2)
     return found
+
+
+def native_valuation(w):
+    """the literals of the cluster's invariant template that can be read off the real objects / this harness's bookkeeping
+    (used to test, on natively reached states, clauses that would exclude a counterexample-to-induction)"""
+    b = w.boss
+    v = {}
+    objs = dict(B=b, N=b._N, M=b._M, S=b._S, O=b._O, K=b._K, SK=b._K._SK, R=b._R, L=b._L, A=b._A, I=b._I, C=b._C, T=b._T)
+    for nm, o in objs.items():
+        tr = getattr(o, type(o).m._symbol, None)
+        v[nm + ".state"] = (tr._state if tr is not None else type(o).m._automaton.initialState).method.__name__
+
+    def fld(name, obj, attr):
+        x = getattr(obj, attr, None)
+        v[name + ".isnone"] = x is None
+        v[name + ".falsy"] = not x
+    fld("N._nameplate", b._N, "_nameplate")
+    fld("S._key", b._S, "_key")
+    fld("R._key", b._R, "_key")
+    fld("M._mailbox", b._M, "_mailbox")
+    fld("I._nameplate", b._I, "_nameplate")
+    v["M.mood"] = getattr(b._M, "_mood", None) or "none"
+    v["RC._stopping"] = bool(w.rc._stopping)
+    v["RC._ws.isnone"] = w.rc._ws is None
+    calls = [n for n, _ in w.W.calls]
+    g = {"connected": w.connected, "w_closed": "closed" in calls, "api_closed": w.api_closed, "service_stopped": w.service_stopped,
+         "claimed_maybe": w.claimed_maybe, "opened_maybe": w.opened_maybe, "w_code": "got_code" in calls, "w_key": "got_key" in calls,
+         "w_verifier": "got_verifier" in calls, "w_versions": "got_versions" in calls, "bound": w.bound,
+         "welcome_rx": w.welcome_rx, "open_sent": w.open_sent, "release_owed": w.owed["release"], "close_owed": w.owed["close"],
+         "claim_owed": w.owed["claim"], "list_owed": w.owed["list"], "allocate_owed": w.owed["allocate"],
+         "helper_given": w.helper is not None, "stopped_done": w.stopped_done, "rc_stop_called": bool(w.rc._stopping),
+         "close_mood": w.t_moods[-1] if w.t_moods else "none",
+         "stopped_pending": w.rc._connector.stop_d is not None and not w.rc._connector.stop_d.called}
+    if w.rc._stopping and not g["stopped_pending"]:
+        # StubService.stopService() completed synchronously: the verifier's `service.stopped` event has happened
+        g["service_stopped"] = g["stopped_done"] = True
+    r = b._result
+    g["result_kind"] = {"str": "happy" if r == "happy" else "empty", "LonelyError": "lonely", "WrongPasswordError": "scary",
+                        "ServerError": "errory", "WelcomeError": "unwelcome", "ServerConnectionError": "conn_error"}.get(
+                            type(r).__name__, "other")
+    for k, x in g.items():
+        v["ghost." + k] = x
+    return v
